@@ -110,11 +110,14 @@ func symKey(material []byte, alg string) jwk.Key {
 	return k
 }
 
+// The vault knows the algorithm names of kit's crypto package only: the two aliases ("AES", "RSA") are a convenience
+// of EncryptOptions.Algorithm which Encrypt resolves before it talks to the vault; and, like any vault, it unwraps a
+// key only under the algorithm it was wrapped under.
 func (v *vault) wrapKey(fk []byte, alg string) ([]byte, error) {
 	if v.identity {
 		return bytes.Clone(fk), nil
 	}
-	switch a := canonical(alg); a {
+	switch a := alg; a {
 	case "A256KW":
 		ct, _, err := kitcrypto.EncryptSymmetric(fk, a, symKey(v.sym, a), nil, nil)
 		return ct, err
@@ -128,10 +131,13 @@ func (v *vault) wrapKey(fk []byte, alg string) ([]byte, error) {
 }
 
 func (v *vault) unwrapKey(wfk []byte, alg string) ([]byte, error) {
+	if v.wrapAlg != "" && alg != v.wrapAlg {
+		return nil, fmt.Errorf("verif vault: asked to unwrap under %q a key that was wrapped under %q", alg, v.wrapAlg)
+	}
 	if v.identity {
 		return bytes.Clone(wfk), nil
 	}
-	switch a := canonical(alg); a {
+	switch a := alg; a {
 	case "A256KW":
 		return kitcrypto.DecryptSymmetric(wfk, a, symKey(v.sym, a), nil, nil, nil)
 	case "A128CBC-NOPAD", "A192CBC-NOPAD", "A256CBC-NOPAD":
